@@ -283,10 +283,28 @@ def run(repo: Repo) -> Result:
 
     # ---- C17-MODULE --------------------------------------------------------------
     mutable_globals: dict[str, set[str]] = {}
+    from ..model import ClassInfo
+
+    def _repo_container_ctor(mod, call) -> bool:
+        """A call of a repo class that is itself a mutable container (defines __setitem__ /
+        append / add somewhere in its MRO): LRUCache, ThreadSafeLRUCache, ..."""
+        fn_ = call.func
+        while isinstance(fn_, ast.Subscript):  # Cache[str, str](...)
+            fn_ = fn_.value
+        chain_ = attr_chain(fn_)
+        if not chain_:
+            return False
+        r = repo.resolve_in(mod, ".".join(chain_))
+        if not isinstance(r, ClassInfo):
+            return False
+        return any(repo.find_method(r, meth) is not None for meth in ("__setitem__", "append", "add", "push"))
+
     for m in repo.modules.values():
         names = set()
         for name, v in m.assigns.items():
-            if isinstance(v, (ast.Dict, ast.List, ast.Set, ast.DictComp, ast.ListComp, ast.SetComp)) or (isinstance(v, ast.Call) and callee_name(v) in ("dict", "list", "set", "defaultdict", "deque", "OrderedDict")):
+            if isinstance(v, (ast.Dict, ast.List, ast.Set, ast.DictComp, ast.ListComp, ast.SetComp)) or (
+                isinstance(v, ast.Call) and (callee_name(v) in ("dict", "list", "set", "defaultdict", "deque", "OrderedDict", "Counter", "WeakValueDictionary", "WeakKeyDictionary", "ChainMap", "bytearray") or _repo_container_ctor(m, v))
+            ):
                 names.add(name)
         mutable_globals[m.name] = names
     class_mutables: dict[str, set[str]] = {}
@@ -324,6 +342,27 @@ def run(repo: Repo) -> Result:
                         res.ob(f"class-mut:{f.qual}:{base.attr}")
                         if not shadowed:
                             res.add("C17-MODULE", f.qual, f"{k.name}.{base.attr}{what}", f"{f.qual} mutates the class-level container {k.qual}.{base.attr}: shared by every instance and render", f.file, n.lineno)
+    # mutable default arguments and function attributes are the same channel in disguise
+    n_def = 0
+    for f in repo.all_functions():
+        a = f.node.args
+        pos = a.posonlyargs + a.args
+        pairs = list(zip(pos[len(pos) - len(a.defaults):], a.defaults)) + [(k, d) for k, d in zip(a.kwonlyargs, a.kw_defaults) if d is not None]
+        for arg, d in pairs:
+            if isinstance(d, (ast.Dict, ast.List, ast.Set)) or (isinstance(d, ast.Call) and callee_name(d) in ("dict", "list", "set", "defaultdict", "deque", "OrderedDict")):
+                n_def += 1
+                for n in ast.walk(f.node):
+                    hit = None
+                    if isinstance(n, ast.Call) and isinstance(n.func, ast.Attribute) and n.func.attr in MUTATORS and is_name(n.func.value, arg.arg):
+                        hit = f".{n.func.attr}()"
+                    elif isinstance(n, ast.Subscript) and isinstance(n.ctx, (ast.Store, ast.Del)) and is_name(n.value, arg.arg):
+                        hit = "[...] ="
+                    if hit:
+                        res.add("C17-MODULE", f.qual, f"default:{arg.arg}{hit}", f"{f.qual} mutates its mutable default argument `{arg.arg}` ({hit}): the default object is shared by every call in the process", f.file, n.lineno)
+        for n in ast.walk(f.node):
+            if isinstance(n, ast.Attribute) and isinstance(n.ctx, ast.Store) and isinstance(n.value, ast.Name) and n.value.id in f.module.functions and n.value.id not in {x.id for x in ast.walk(f.node) if isinstance(x, ast.Name) and isinstance(x.ctx, ast.Store)}:
+                res.add("C17-MODULE", f.qual, f"funcattr:{n.value.id}.{n.attr}", f"{f.qual} stores state on the function object {n.value.id}.{n.attr}", f.file, n.lineno)
+    res.ob("mutable-defaults", max(n_def, 1))
     res.ob("module-containers", max(n_glob, 1))
 
     # ---- C17-FRESH ---------------------------------------------------------------
@@ -345,6 +384,8 @@ def selftest(repo: Repo):
 
     A = "liquid/builtin/filters/array.py"
     return [
+        v("module-lru-cache-memo", "liquid/utils/html.py", 'def strip_tags(value: str) -> str:\n    """Return the given value with all HTML tags removed."""\n', 'from .lru_cache import ThreadSafeLRUCache\n\n_STRIPPED: ThreadSafeLRUCache[str, str] = ThreadSafeLRUCache(capacity=512)\n\n\ndef strip_tags(value: str) -> str:\n    """Return the given value with all HTML tags removed."""\n    if value in _STRIPPED:\n        return _STRIPPED[value]\n    _STRIPPED[value] = value\n', "C17-MODULE"),
+        v("default-arg-memo", "liquid/utils/html.py", 'def strip_tags(value: str) -> str:\n    """Return the given value with all HTML tags removed."""\n', 'def strip_tags(value: str, _memo: dict = {}) -> str:\n    """Return the given value with all HTML tags removed."""\n    if value in _memo:\n        return _memo[value]\n    _memo[value] = value\n', "C17-MODULE"),
         v("memo-on-filter", "liquid/builtin/filters/math.py", "@math_filter\ndef ceil(", "@functools.lru_cache(maxsize=32)\n@math_filter\ndef ceil(", "C17-MEMO"),
         v("memo-on-date", "liquid/builtin/filters/misc.py", "@with_environment\n@liquid_filter\ndef date(", "@with_environment\n@liquid_filter\n@functools.lru_cache(maxsize=10)\ndef date(", "C17-MEMO"),
         v("sort-in-place", A, "    try:\n        return sorted(sequence)\n    except TypeError as err:\n        raise FilterError(\"can't sort sequence\", token=None) from err", "    try:\n        sequence.sort()\n        return sequence\n    except TypeError as err:\n        raise FilterError(\"can't sort sequence\", token=None) from err", "C17-INPUT"),
